@@ -122,7 +122,7 @@ Modelled == {"char", "put", "backward-char", "forward-char", "beginning-of-line"
              "half-page-down", "toggle", "toggle-up", "toggle-down", "toggle-in", "toggle-out", "toggle-all",
              "select-all", "deselect-all", "select", "deselect", "clear-selection", "change-multi",
              "next-selected", "prev-selected", "ignore", "toggle-sort", "print", "bell",
-             "cancel", "delete-char/eof", "backward-delete-char/eof", "accept", "accept-non-empty",
+             "exclude", "exclude-multi", "cancel", "delete-char/eof", "backward-delete-char/eof", "accept", "accept-non-empty",
              "accept-or-print-query", "abort", "print-query"}
 
 (* How the session ends, if the action ends it: "close" = accept (print selection or current line),              *)
@@ -220,6 +220,9 @@ Apply1(act, arg, s, e) ==
     [] act = "deselect" ->
          LET c == Current(s, e)
          IN IF s.multi > 0 /\ c # -1 THEN [s EXCEPT !.sel = Remove(s.sel, c)] ELSE s
+    [] act = "exclude" ->          \* the excluded item is deselected; the list itself changes with the next result
+         LET c == Current(s, e) IN IF c # -1 THEN [s EXCEPT !.sel = Remove(s.sel, c)] ELSE s
+    [] act = "exclude-multi" -> [s EXCEPT !.sel = <<>>]
     [] act = "clear-selection" -> IF s.multi > 0 THEN [s EXCEPT !.sel = <<>>] ELSE s
     [] act = "change-multi" ->          \* arg: -1 = no argument (unlimited), n >= 0 = new limit
          LET m == IF arg = -1 THEN MaxMulti ELSE arg
